@@ -43,7 +43,7 @@ MORE_OPAQUE = ["base_unit_price_to_sqrt_price_x96", "sqrt_price_x96_to_tick", "g
                "get_liquidity_for_amount1", "get_liquidity", "estimate_amount", "base_unit_price_to_tick", "estimate_ratio",
                "nearest_usable_tick", "price_to_tick", "get_swap_value_with_part_balance_used", "get_token_balance",
                "get_token_balance_with_unit", "tick_to_base_unit_price", "get_token_amounts", "get_mint_amount", "getOutputAmount",
-               "new_position", "close_position", "quote_price_pair_to_tick", "tick_to_price", "get_position_amount", "_convert_pair"]
+               "new_position", "close_position", "quote_price_pair_to_tick", "tick_to_price", "get_position_amount"]
 
 
 def _terms_of(x):
